@@ -150,6 +150,27 @@ BOUNDED = [
      "bound": "%d generated programs (type hints of every built-in constructor with 0..3 arguments in annotation, return, parameter and generic position against literals of every shape; match shapes; enum / struct / type-parameter corner cases; truncated inputs): check, format and reftest-ast must not crash on any" % len(_MATRIX),
      "expect": {}},
 ]
+BOUNDED.append({"name": "moderately_nested_sources", "kind": "frontend-nopanic", "props": ["C01"], "input": common.MODERATE_SOURCES, "n_inputs": len(common.MODERATE_SOURCES),
+                "bound": "%d programs nested 40 deep (brackets, blocks, function literals) or with chains of 60 to 100 operators / calls / else-if branches: check, format and reftest-ast end without a crash" % len(common.MODERATE_SOURCES), "expect": {}})
+for _dn, _dt in sorted(common.DEEP_SOURCES.items()):
+    BOUNDED.append({"name": "deep_source:" + _dn, "kind": "frontend-nopanic", "props": ["C01"], "input": [_dt], "n_inputs": 1,
+                    "bound": "one program: %s (check, format and reftest-ast must end without a crash)" % _dn.replace("_", " "), "expect": {}})
+_RUN_ORACLE = "('the run crashed (status %s): %s' % (rc, err[-160:])) if (isinstance(rc, int) and rc not in (0, 1)) or 'overflowed' in err else ''"
+_NEST = {"list": ("[]", "[x]"), "tuple": ("(1, 2)", "(x, 1)"), "option": ("None", "Some(x)"), "dict": ("Dict[]", "Dict[\"k\" => x]")}
+
+
+def _nest_prog(kind, n, last):
+    a, b = _NEST[kind]
+    return "let x = %s\nlet i = 0\nwhile i < %d { x = %s  i += 1 }\n%s\n" % (a, n, b, last)
+
+
+for _k in sorted(_NEST):
+    BOUNDED.append({"name": "moderately_nested_values:%s" % _k, "kind": "run", "props": ["C02"], "n_inputs": 1, "timeout": 120,
+                    "input": _nest_prog(_k, 300, "println(string_repr(x == x))\nprintln(string_repr(string_repr(x).len()))"), "expect": {"py": _RUN_ORACLE, "stdout_contains": "True"},
+                    "bound": "one program: a %s nested 300 deep, compared with itself and shown with string_repr: `garden run` ends without a crash" % _k})
+for _dn, _dk, _dd, _dl in (("nested_list_6000", "list", 6000, "println(\"end\")"), ("nested_option_6000", "option", 6000, "println(\"end\")"), ("nested_list_3000_displayed", "list", 3000, "println(string_repr(x).len())")):
+    BOUNDED.append({"name": "deep_value:" + _dn, "kind": "run", "props": ["C02"], "n_inputs": 1, "timeout": 120, "input": _nest_prog(_dk, _dd, _dl), "expect": {"py": _RUN_ORACLE},
+                    "bound": "one program: a %s nested %d deep%s: `garden run` ends without a crash" % (_dk, _dd, ", shown with string_repr" if "string_repr" in _dl else "")})
 
 
 def build(tier):
